@@ -325,6 +325,9 @@ class Report:
         samples = []
         for u in self.units:
             samples.extend(u.samples[:2])
+        vc = [ob for ob in all_obs if "VC: " in (ob.get("detail") or "")]
+        step = max(1, len(vc) // 4)
+        samples = samples[:8] + [{k: ob.get(k) for k in ("name", "site", "status", "backend", "detail")} for ob in vc[::step][:4]]
         if not samples:
             samples = [{k: ob.get(k) for k in ("name", "site", "status", "backend", "detail")} for ob in all_obs[:5]]
         stats = {}
@@ -362,7 +365,7 @@ class Report:
             "seed": self.seed,
             "level": level,
             "coverage": coverage,
-            "assumptions": sorted(set(self.assumptions + [a for u in self.units for a in u.assumptions])),
+            "assumptions": sorted(set(self.assumptions + [a for u in self.units for a in u.assumptions])) + list(self.trusted_base),
             "wall_s": round(wall, 3),
             "violations": len(violations),
         }
